@@ -411,6 +411,7 @@ func jobSyncMonitor(res *Result, m *mJob, cfg jsCfg, ops []jsOp, obs []jsObs, js
 						if i != len(ob.Actions)-1 || ob.OK {
 							hit("C09", "C09/own-task-not-awaited"+lagSfx(ob), fmt.Sprintf("op %d: create of %s hit the Job's own Pod, which the Pod cache has not delivered yet; the pass went on (%d more API calls, error returned: %v) instead of retrying", k, act.Name, len(ob.Actions)-1-i, !ob.OK))
 							hit("C20", "C20/own-task-refused-after-failed-pass"+lagSfx(ob), fmt.Sprintf("op %d: create of %s hit the Job's own Pod (left by an earlier pass), not yet in the Pod cache; the pass went on (%d more API calls, error returned: %v) instead of retrying", k, act.Name, len(ob.Actions)-1-i, !ob.OK))
+							hit("C10", "C10/own-task-taken-for-foreign"+lagSfx(ob), fmt.Sprintf("op %d: create of %s hit the Job's own Pod, not yet in the Pod cache; the pass went on instead of retrying: the Job is refused (finished with an admission error) while its own task lives on", k, act.Name))
 						}
 						break
 					}
@@ -441,6 +442,7 @@ func jobSyncMonitor(res *Result, m *mJob, cfg jsCfg, ops []jsOp, obs []jsObs, js
 					if !justified {
 						hit("C09", "C09/own-task-refused"+lagSfx(ob), fmt.Sprintf("op %d: the Job was given an admission error although no create was refused as invalid and no foreign Pod holds a task name", k))
 						hit("C20", "C20/own-task-refused-after-failed-pass"+lagSfx(ob), fmt.Sprintf("op %d: the Job was given an admission error although no create was refused as invalid and no foreign Pod holds a task name (a Pod created by an earlier, failed pass is the Job's own)", k))
+						hit("C10", "C10/own-task-taken-for-foreign"+lagSfx(ob), fmt.Sprintf("op %d: the Job was given an admission error (a final result) although no create was refused as invalid and no foreign Pod holds a task name", k))
 					}
 				}
 			}
